@@ -21,6 +21,12 @@ Parse/edit histories (NdnPacketsCertParse, NdnPacketsCertParseTrace): "parsing r
    checks ParseReturnsIssued and Independent and refutes the "one remembered result per wire" deviation; B the cover paths of
    the state graph are replayed on real parse results and every holder's view is compared with TLC's state after every
    step; C random longer histories (more certificates, results, every buffer kind) are judged by TLC.
+The bytes of the subject key (NdnPacketsCert!EncsOf / BufKinds / ContentExpect) are a dimension of every issuing call: each key
+   type in every encoding a caller may hold it in (canonical SubjectPublicKeyInfo, compressed point, explicit curve parameters,
+   PKCS#1, PEM, OpenSSH, bare point / raw key, a modulus with a surplus zero, ...), bytes that are no key at all (empty .. long),
+   handed over as bytes / bytearray / memoryview / a view into a larger writable buffer that the caller overwrites afterwards.
+   B: TLC enumerates encoding x issuing call x buffer (NdnPacketsCertCfg!KeyForms) with the expected observation of the Content
+   (is the bytes given; what a relying party imports from it; the certificate verifies under the key it carries); C: random.
 The time zone of the issuing process (TZ + tzset, HOSTS) is a dimension of every issuing call in B (NdnPacketsCertCfg!Hosts)
    and C (random requests, signer-reuse histories, certificates of parse histories).
 """
@@ -45,6 +51,180 @@ T0 = datetime(1970, 1, 1)
 # signer-reuse histories, certificates issued for parse histories. West / east of UTC, with and without DST,
 # offsets that are not whole hours (+05:30, +12:45/+13:45).
 HOSTS = ['UTC', 'UTC', 'America/Los_Angeles', 'America/New_York', 'Asia/Kolkata', 'Europe/Berlin', 'Pacific/Auckland', 'Pacific/Chatham']
+
+
+# ---------------------------------------------------------------- the bytes of the subject key
+
+EC_ENCS = ['spki', 'spki-compressed', 'spki-explicit', 'pem', 'pem-compressed', 'openssh', 'point', 'point-compressed']
+RSA_ENCS = ['spki', 'spki-noparams', 'pkcs1', 'pkcs1-padded', 'pem', 'pem-pkcs1', 'openssh']
+ED_ENCS = ['spki', 'pem', 'openssh', 'raw']
+ENCS = {'ec256': EC_ENCS, 'ec384': EC_ENCS, 'rsa': RSA_ENCS, 'ed25519': ED_ENCS}      # + 'opaque' for every type
+BUF_KINDS = ['bytes', 'bytearray', 'memoryview', 'memoryview-slice']
+OPAQUE_LENS = [0, 1, 2, 31, 32, 33, 44, 64, 91, 100, 252, 253, 294, 300, 1000]
+
+
+def _pem(label, der):
+    import binascii
+    b64 = binascii.b2a_base64(der, newline=False)
+    return b'-----BEGIN %s-----\n' % label + b'\n'.join(b64[i:i + 64] for i in range(0, len(b64), 64)) + b'\n-----END %s-----' % label
+
+
+def _tl(t, body):
+    n = len(body)
+    return bytes([t]) + (bytes([n]) if n < 128 else b'\x81' + bytes([n]) if n < 256 else b'\x82' + n.to_bytes(2, 'big')) + body
+
+
+def _ec_explicit(pub):
+    """SubjectPublicKeyInfo with the curve given by explicit parameters (RFC 3279 ECParameters) instead of its name."""
+    from Cryptodome.Util.asn1 import DerSequence, DerBitString, DerObjectId, DerOctetString
+    c = pub._curve
+    p, b, n, gx, gy = int(c.p), int(c.b), int(c.order), int(c.Gx), int(c.Gy)
+    w = (p.bit_length() + 7) // 8
+    if (gy * gy - (gx ** 3 - 3 * gx + b)) % p:
+        raise MachineryError('curve parameters: the base point is not on the curve')
+    fid = DerSequence([DerObjectId('1.2.840.10045.1.1').encode(), p])
+    curve = DerSequence([DerOctetString((p - 3).to_bytes(w, 'big')).encode(), DerOctetString(b.to_bytes(w, 'big')).encode()])
+    g = DerOctetString(b'\x04' + gx.to_bytes(w, 'big') + gy.to_bytes(w, 'big'))
+    params = DerSequence([1, fid.encode(), curve.encode(), g.encode(), n, 1])
+    alg = DerSequence([DerObjectId('1.2.840.10045.2.1').encode(), params.encode()])
+    return DerSequence([alg.encode(), DerBitString(pub.export_key(format='SEC1')).encode()]).encode()
+
+
+def subject_key(pool, subj):
+    return {'ec256': pool.ec[72][1], 'ec384': pool.ec[104][1], 'rsa': pool.rsa[1], 'ed25519': pool.ed[1]}[subj]
+
+
+def key_forms(pool):
+    """(subject key type, encoding) -> the bytes a caller holds. Built with PyCryptodome's exporters and a hand DER
+    writer; nothing of the library under test is involved."""
+    if hasattr(pool, 'c16_forms'):
+        return pool.c16_forms
+    from Cryptodome.Util.asn1 import DerSequence, DerBitString, DerObjectId
+    f = {}
+    for subj in ('ec256', 'ec384'):
+        pub = subject_key(pool, subj)
+        f[subj, 'spki'] = pub.export_key(format='DER')
+        f[subj, 'spki-compressed'] = pub.export_key(format='DER', compress=True)
+        f[subj, 'spki-explicit'] = _ec_explicit(pub)
+        f[subj, 'pem'] = pub.export_key(format='PEM').encode()
+        f[subj, 'pem-compressed'] = pub.export_key(format='PEM', compress=True).encode()
+        f[subj, 'openssh'] = pub.export_key(format='OpenSSH').encode()
+        f[subj, 'point'] = pub.export_key(format='SEC1')
+        f[subj, 'point-compressed'] = pub.export_key(format='SEC1', compress=True)
+    pub = subject_key(pool, 'rsa')
+    p1 = DerSequence([pub.n, pub.e]).encode()
+    f['rsa', 'spki'] = pub.export_key(format='DER')
+    f['rsa', 'spki-noparams'] = DerSequence([DerSequence([DerObjectId('1.2.840.113549.1.1.1').encode()]).encode(),
+                                             DerBitString(p1).encode()]).encode()
+    f['rsa', 'pkcs1'] = p1
+    nb, eb = pub.n.to_bytes((pub.n.bit_length() + 7) // 8, 'big'), pub.e.to_bytes((pub.e.bit_length() + 7) // 8, 'big')
+    f['rsa', 'pkcs1-padded'] = _tl(0x30, _tl(2, (b'\x00\x00' if nb[0] & 0x80 else b'\x00') + nb) + _tl(2, (b'\x00' if eb[0] & 0x80 else b'') + eb))
+    f['rsa', 'pem'] = pub.export_key(format='PEM')
+    f['rsa', 'pem-pkcs1'] = _pem(b'RSA PUBLIC KEY', p1)
+    f['rsa', 'openssh'] = pub.export_key(format='OpenSSH')
+    pub = subject_key(pool, 'ed25519')
+    f['ed25519', 'spki'] = pub.export_key(format='DER')
+    f['ed25519', 'pem'] = pub.export_key(format='PEM').encode()
+    f['ed25519', 'openssh'] = pub.export_key(format='OpenSSH').encode()
+    f['ed25519', 'raw'] = pub.export_key(format='raw')
+    f = {k: (v.encode() if isinstance(v, str) else bytes(v)) for k, v in f.items()}
+    for subj in SUBJ:
+        if f[subj, 'spki'] != pool.pub_der(subj) or sorted(e for s_, e in f if s_ == subj) != sorted(ENCS[subj]):
+            raise MachineryError('key forms of %s are not what the pool / the encoding table say' % subj)
+    if len(set(f.values())) != len(f):
+        raise MachineryError('two encodings of the key forms coincide')
+    pool.c16_forms = f
+    return f
+
+
+def key_class(subj, data, pool):
+    """What a relying party obtains from key bits, importing them the way the library's checkers and validators do
+    (RSA.import_key for an RSA key, ECC.import_key otherwise): 'subject' | 'other-key' | 'unreadable'."""
+    from Cryptodome.PublicKey import ECC, RSA
+    want = subject_key(pool, subj)
+    try:
+        k = (RSA if subj == 'rsa' else ECC).import_key(bytes(data))
+    except (ValueError, IndexError, TypeError):
+        return 'unreadable'
+    try:
+        if subj == 'rsa':
+            return 'subject' if (k.n, k.e) == (want.n, want.e) and not k.has_private() else 'other-key'
+        return 'subject' if k == want and not k.has_private() else 'other-key'
+    except Exception:  # noqa
+        return 'other-key'
+
+
+class Given:
+    """The key bits as the caller hands them over: snapshot (the bytes at the time of the call), the buffer object,
+    and what the caller does to a writable buffer afterwards."""
+
+    def __init__(self, q, rng, pool):
+        enc, kind = q.get('enc', 'spki'), q.get('pubbuf', 'bytes')
+        if enc == 'opaque':
+            for _ in range(50):
+                data = rng.randbytes(q['publen'])
+                if key_class(q['subj'], data, pool) == 'unreadable':
+                    break
+            else:
+                raise MachineryError('random bytes keep being a key')
+        else:
+            data = key_forms(pool).get((q['subj'], enc))
+            if data is None:
+                raise MachineryError('no encoding %r of a %s key' % (enc, q['subj']))
+        if len(data) != q['publen']:
+            raise MachineryError('request says the %s/%s key bits are %d bytes long, they are %d (NdnPacketsCertCfg!EncLen)'
+                                 % (q['subj'], enc, q['publen'], len(data)))
+        self.snapshot = data
+        self.base = None
+        if kind == 'bytes':
+            self.buf = data
+        elif kind == 'bytearray':
+            self.buf = self.base = bytearray(data)
+        elif kind == 'memoryview':
+            self.buf = memoryview(bytes(bytearray(data)))
+        elif kind == 'memoryview-slice':
+            lo = rng.randint(1, 9)
+            self.base = bytearray(rng.randbytes(lo) + data + rng.randbytes(rng.randint(0, 9)))
+            self.buf = memoryview(self.base)[lo:lo + len(data)]
+        else:
+            raise MachineryError('unknown buffer kind %r' % kind)
+        self.scrambled = None
+
+    def scramble(self):
+        """the caller reuses its buffer"""
+        if self.base is not None:
+            for i in range(len(self.base)):
+                self.base[i] ^= 0x5a
+            self.scrambled = bytes(self.buf)
+
+
+CHECKERS = {'ecdsa': 'EccChecker', 'rsa': 'RsaChecker', 'ed25519': 'Ed25519Checker'}
+NO_CONTENT = {'is': 'absent', 'key': 'unreadable', 'carried': False}
+
+
+def content_obs(q, b, lay, pool):
+    """NdnPacketsCert!ContentExpect as observed: is the Content the bytes given; what a relying party imports from it;
+    does a checker built from (key locator, Content) accept the certificate.  + class of a departure (for signatures)."""
+    cs = find(lay, 21, 1) if lay else []
+    if len(cs) != 1:
+        return {'is': 'absent', 'key': 'unreadable', 'carried': False}, 'no-content'
+    content = bytes(val(b.wire, cs[0]))
+    obs = {'is': 'given' if content == b.pub else 'other', 'key': key_class(q['subj'], content, pool), 'carried': False}
+    cname = CHECKERS.get(q['sg']['kind'])
+    if cname and b.kl is not None:
+        import ndn.security as sec
+        try:
+            name, _m, _c, sp = parse_data(b.wire)
+            obs['carried'] = bool(pk.run_sync(getattr(sec, cname).from_key(b.kl, content)(name, sp)))
+        except MachineryError:
+            raise
+        except Exception:  # noqa: a checker that raises has not accepted
+            pass
+    how = 'as-given'
+    if obs['is'] != 'given':
+        how = 'follows-the-callers-buffer' if b.given.scrambled is not None and content == b.given.scrambled and content != b.pub \
+            else {'subject': 'same-key-re-encoded', 'other-key': 'another-key'}.get(obs['key'], 'other-bytes')
+    return obs, how
 
 
 # ---------------------------------------------------------------- executor
@@ -191,7 +371,8 @@ def issue(q, rng, pool, target=True, live=None, keyname=None):
     live = (signer object, concrete locator name): issue with this long-lived signer instead of a fresh one."""
     b = pk.Built()
     b.q = q
-    b.pub = pool.pub_der(q['subj'])
+    b.given = Given(q, rng, pool)
+    b.pub = b.given.snapshot
     b.keyname = keyname or key_name_bytes(q, rng)
     if live is not None:
         b.kl = live[1]
@@ -210,16 +391,17 @@ def issue(q, rng, pool, target=True, live=None, keyname=None):
         b.ms = ck.ms
         try:
             if q['fn'] == 'self_sign':
-                b.cert_name, w = sv2.self_sign(b.keyname, b.pub, b.rec)
+                b.cert_name, w = sv2.self_sign(b.keyname, b.given.buf, b.rec)
             elif q['fn'] == 'sign_req':
-                b.cert_name, w = sv2.sign_req(b.keyname, b.pub, b.rec)
+                b.cert_name, w = sv2.sign_req(b.keyname, b.given.buf, b.rec)
             elif q['fn'] == 'new_cert':
                 b.issuer_arg, b.issuer_bytes = issuer_arg(dict(q, idform='comp'), rng)
-                b.cert_name, w = sv2.new_cert(b.keyname, b.issuer_arg, b.pub, b.rec, t_start, t_end)
+                b.cert_name, w = sv2.new_cert(b.keyname, b.issuer_arg, b.given.buf, b.rec, t_start, t_end)
             else:
                 b.issuer_arg, b.issuer_bytes = issuer_arg(q, rng)
-                b.cert_name, w = sv2.derive_cert(b.keyname, b.issuer_arg, b.pub, b.rec, t_start, q['dur'])
+                b.cert_name, w = sv2.derive_cert(b.keyname, b.issuer_arg, b.given.buf, b.rec, t_start, q['dur'])
             b.raw = w                 # the caller's buffer, kept alive (re-read later: must not change)
+            b.given.scramble()        # the caller's key buffer is the caller's: reused right after the call
             b.wire = bytes(w)
         except MachineryError:
             raise
@@ -255,21 +437,21 @@ def field_checks(q, b, lay):
         bad.append(('name/version', 'version component %s, expected %s' % (comps[-1].hex(), ver.hex())))
     if [bytes(c) for c in b.cert_name] != comps:
         bad.append(('name/returned', 'returned certificate name differs from the name in the wire'))
-    if val(wire, find(lay, 21, 1)[0]) != b.pub:
-        bad.append(('content', 'content is not the given public key'))
     if val(wire, find(lay, 24, 2)[0]) != b'\x02':
         bad.append(('content-type', 'ContentType is not KEY'))
     if q['sg']['haskl']:
         kls = find(lay, 28, 2)
         if not kls or val(wire, kls[0]) != pk.st.write_tlv([(7, b''.join(b.kl))]):
             bad.append(('key-locator', 'KeyLocator does not name the signer\'s key'))
-    # parse side
+    # parse side ("parsing the certificate returns those same fields": the fields of the wire; whether the Content on the
+    # wire is the key given is check_issued's clause)
+    on_wire = bytes(val(wire, find(lay, 21, 1)[0]))
     try:
         cert = sv2.parse_certificate(wire)
         si = cert.signature_info
         got = {
             'name': [bytes(c) for c in cert.name] == want_name,
-            'content': bytes(cert.content) == b.pub,
+            'content': bytes(cert.content if cert.content is not None else b'') == on_wire and (cert.content is not None or not on_wire),
             'content-type': cert.meta_info is not None and cert.meta_info.content_type == 2,
             'signature-type': si is not None and si.signature_type == SIGTYPE[q['sg']['kind']] or not q['sg']['st'],
             'key-locator': (si.key_locator is not None and [bytes(c) for c in si.key_locator.name] == b.kl)
@@ -286,7 +468,7 @@ def field_checks(q, b, lay):
         name, meta, content, sp = parse_data(wire)
         if [bytes(c) for c in name] != want_name:
             bad.append(('parse_data/name', 'parse_data returns another name'))
-        if bytes(content) != b.pub:
+        if bytes(content if content is not None else b'') != on_wire:
             bad.append(('parse_data/content', 'parse_data returns another content'))
         if meta.content_type != 2:
             bad.append(('parse_data/content-type', 'parse_data returns content type %r' % meta.content_type))
@@ -342,6 +524,23 @@ def check_issued(ctx, q, exp, b, pool, stage, label=None, rep=None):
     except st.TlvError as e:
         ctx.violation('C16/%s/layout/malformed-%s' % (fn, e.reason), 'certificate is not one well-formed TLV element: %s' % e, rep)
         return None
+    # the Content against the bytes given (the comparison is the projection; the expectation is NdnPacketsCert!ContentExpect:
+    # "is" does not depend on the request, "key" and "carried" are compared with TLC's value in B and judged by TLC in C)
+    b.content, how = content_obs(q, b, lay, pool)
+    enc = q.get('enc', 'spki') if label is None else 'any-encoding'
+    if b.content['is'] == 'other':
+        cs = find(lay, 21, 1)[0]
+        ctx.violation('C16/%s/content/%s/%s' % (fn, enc, how),
+                      'the Content of the certificate is not the public key given (%s key as %s, %d bytes, in a %s): it holds %d bytes %s... '
+                      '(%s); given %s...' % (q['subj'], q.get('enc', 'spki'), len(b.pub), q.get('pubbuf', 'bytes'), cs[4],
+                                             bytes(val(b.wire, cs)[:24]).hex(), how, b.pub[:24].hex()), rep)
+    elif exp is not None and b.content['is'] == 'given':
+        if key_class(q['subj'], b.pub, pool) != exp['content']['key']:
+            raise MachineryError('NdnPacketsCert!Unreadable disagrees with PyCryptodome on the %s encoding of a %s key' % (q.get('enc'), q['subj']))
+        if exp['content']['carried'] and not b.content['carried']:
+            ctx.violation('C16/%s/content/%s/certificate-does-not-verify-under-the-key-it-carries' % (fn, enc),
+                          'a %s built from the key locator and the Content rejects the certificate issued with that very key'
+                          % CHECKERS.get(q['sg']['kind']), rep)
     if exp is not None:
         want = pk.exp_layout(exp)
         if lay != want:
@@ -393,6 +592,14 @@ def rand_instant(rng, max_year):
             d = 28
         return {'d': days(y, m, d), 's': rng.choice([0, 1, 43200, 86398, 86399])}
     return {'d': rng.randint(0, days(max_year, 12, 31)), 's': rng.randrange(86400)}
+
+
+def rand_key_form(rng, pool, subj):
+    """-> (encoding, buffer kind, length) of the key bits the caller hands over"""
+    x = rng.random()
+    enc = 'spki' if x < 0.3 else 'opaque' if x < 0.42 else rng.choice(ENCS[subj])
+    n = rng.choice(OPAQUE_LENS + [rng.randrange(600)]) if enc == 'opaque' else len(key_forms(pool)[subj, enc])
+    return enc, rng.choice(BUF_KINDS), n
 
 
 def rand_req(rng, pool):
@@ -449,8 +656,10 @@ def rand_req(rng, pool):
     if fn in ('derive', 'new_cert') and rng.random() < 0.04:
         start = {'d': days(rng.choice([1, 99, 999, 1000, 1582, 1900, 1969]), rng.choice([1, 12]), rng.choice([1, 28])), 's': rng.randrange(86400)}
     host = rng.choice(HOSTS)
-    q = {'fn': fn, 'subj': subj, 'keyname': keyname, 'lit': lit, 'publen': len(pool.pub_der(subj)), 'issuer': issuer, 'idform': idform,
-         'sg': sg, 'clock': clock, 'start': start, 'dur': dur, 'tz': tz, 'tz2': tz2, 'zone': zone, 'host': host}
+    enc, pubbuf, publen = rand_key_form(rng, pool, subj)
+    q = {'fn': fn, 'subj': subj, 'keyname': keyname, 'lit': lit, 'publen': publen, 'issuer': issuer, 'idform': idform,
+         'sg': sg, 'clock': clock, 'start': start, 'dur': dur, 'tz': tz, 'tz2': tz2, 'zone': zone, 'host': host,
+         'enc': enc, 'pubbuf': pubbuf}
     try:        # the caller's datetimes must exist (0001-01-01T07:00 UTC has no wall-clock reading at UTC-8)
         start_datetime(q), end_datetime(q)
     except OverflowError:
@@ -468,7 +677,8 @@ def record(ctx, q, pool, exp=None):
     if q['sg']['a'] < 0:
         q['sg']['a'] = q['sg']['r']
     lay = check_issued(ctx, q, exp, b, pool, 'C' if exp is None else 'B')
-    rec = {'q': q, 'refused': b.exc is not None, 'lay': pk.lay_json(lay or []), 'nb': [], 'na': [], 'signed': []}
+    rec = {'q': q, 'refused': b.exc is not None, 'lay': pk.lay_json(lay or []), 'nb': [], 'na': [], 'signed': [],
+           'content': getattr(b, 'content', NO_CONTENT)}
     if lay and len(find(lay, 254)) == 1 and len(find(lay, 255)) == 1:
         rec['nb'] = list(val(b.wire, find(lay, 254)[0]))
         rec['na'] = list(val(b.wire, find(lay, 255)[0]))
@@ -583,8 +793,9 @@ def run_history(ctx, kind, init, steps, shapes, pool, stage, host=None):
             ev.append({'a': 'SignData', 'after': configured()})
         else:
             fn = stp[1]
-            q = {'fn': fn, 'subj': 'ec256', 'keyname': keyshape, 'lit': ['', 'KEY', ''],
-                 'publen': len(pool.pub_der('ec256')), 'issuer': {'t': 8, 'l': 3}, 'idform': 'plain', 'tz2': NAIVE, 'zone': '', 'host': host, 'sg': live.sg(shapes[cur]),
+            enc, pubbuf, publen = rand_key_form(ctx.rng, pool, 'ec256')
+            q = {'fn': fn, 'subj': 'ec256', 'keyname': keyshape, 'lit': ['', 'KEY', ''], 'enc': enc, 'pubbuf': pubbuf,
+                 'publen': publen, 'issuer': {'t': 8, 'l': 3}, 'idform': 'plain', 'tz2': NAIVE, 'zone': '', 'host': host, 'sg': live.sg(shapes[cur]),
                  'clock': {'d': 20000 + len(ev), 's': 3600, 'ms': 5}, 'start': {'d': 19000, 's': 0}, 'dur': 86400, 'tz': NAIVE}
             before = configured()
             b = issue(q, ctx.rng, pool, target=False, live=(live.obj, names[cur]), keyname=keyname)
@@ -618,7 +829,8 @@ def run_history(ctx, kind, init, steps, shapes, pool, stage, host=None):
                               '%s changed the key locator configured in the signer it was given (configured #%d, afterwards #%d)'
                               % (FN_NAME[fn], before, after), hist_rep)
             ev.append({'a': 'Issue', 'fn': fn, 'kl': seen, 'after': after})
-            rec = {'q': q, 'refused': b.exc is not None, 'lay': pk.lay_json(lay or []), 'nb': [], 'na': [], 'signed': []}
+            rec = {'q': q, 'refused': b.exc is not None, 'lay': pk.lay_json(lay or []), 'nb': [], 'na': [], 'signed': [],
+                   'content': getattr(b, 'content', NO_CONTENT)}
             if lay and len(find(lay, 254)) == 1 and len(find(lay, 255)) == 1:
                 rec['nb'] = list(val(b.wire, find(lay, 254)[0]))
                 rec['na'] = list(val(b.wire, find(lay, 255)[0]))
@@ -771,9 +983,21 @@ def parse_ops(via, f):
     return ['assign']
 
 
+class NotACertificate(Exception):
+    pass
+
+
 def issued_values(wire):
     """The fields of an issued certificate, read from the wire by the strict reader (abstract value 0)."""
-    lay = pk.layout(wire)
+    try:
+        lay = pk.layout(wire)
+    except st.TlvError as e:
+        raise NotACertificate('malformed-%s' % e.reason)
+    for what, t, d in (('name', 7, 1), ('content', 21, 1), ('content-type', 24, 2), ('not-before', 254, None), ('not-after', 255, None)):
+        if len(find(lay, t, d)) != 1:
+            raise NotACertificate('lacks-' + what)
+    if lay[-1][1] != 23:
+        raise NotACertificate('lacks-signature-value')
 
     def body(e):
         return e[2] + e[3], e[2] + e[3] + e[4]
@@ -915,7 +1139,13 @@ def run_parse_history(ctx, qs, steps, pool, stage):
         b = issue(q, rng, pool, target=False, live=live)
         if b.exc is not None:
             return None
-        b.issued = issued_values(b.wire)
+        try:
+            b.issued = issued_values(b.wire)
+        except NotACertificate as e:
+            ctx.violation('C16/parse-history/%s/issued-certificate-%s' % (FN_NAME[q['fn']], e),
+                          'a certificate issued for a parse history is not a complete certificate (%s): %s key as %s, %d bytes'
+                          % (e, q['subj'], q.get('enc'), q['publen']), {'kind': 'req', 'stage': stage, 'q': q})
+            return None
         b.same = bytes(bytearray(b.wire))
         certs.append(b)
     rep = {'kind': 'parse-history', 'qs': qs, 'steps': [list(x) for x in steps]}
@@ -1172,8 +1402,9 @@ def run(ctx):
                 'enumerates, compared entry by entry and verified under the issuing key; C: random requests judged by TLC. '
                 'non-trivial = distinct request whose signature is shorter than its reserve, or whose validity crosses a '
                 'year boundary or touches 29 February, or whose start is given in a zone other than UTC, or whose version '
-                'number is not 8 bytes wide')
-    ctx.assumptions = ['PyCryptodome primitives', 'strict TLV reader is the projection from bytes to the element tree',
+                'number is not 8 bytes wide, or whose key bits are not a canonical SubjectPublicKeyInfo held in a bytes object')
+    ctx.assumptions = ['PyCryptodome primitives (incl. its key exporters / importers: the encodings of the subject keys and what a relying '
+                       'party reads from key bits)', 'strict TLV reader is the projection from bytes to the element tree',
                        'an aware datetime denotes an instant; a naive one is UTC (the convention of self_sign and the CLI)',
                        'self_sign / sign_req request their documented periods (epoch..now+20 years on the same calendar day, now..now+10 days)',
                        'self_sign on 29 February towards a non-leap year: 28 February or 1 March are both accepted']
@@ -1256,14 +1487,21 @@ def run(ctx):
 
 
 def report_rejected(ctx, recs, rejected, stage):
-    names = {'2': 'exception', '3': 'layout', '4': 'validity/not-before', '5': 'validity/not-after', '6': 'signed-range'}
+    names = {'2': 'exception', '3': 'layout', '4': 'validity/not-before', '5': 'validity/not-after', '6': 'signed-range',
+             '7': 'content-is-not-the-key-given', '8': 'content/key-a-relying-party-imports',
+             '9': 'content/certificate-does-not-verify-under-the-key-it-carries'}
     for i, code in rejected:
         rec = recs[i]
         code = str(code).strip()
         if code == '20':
             continue        # self_sign on 29 February: already reported by check_issued under its own signature
         q = rec['q']
+        if code == '8' and rec['content']['is'] == 'given':
+            # the Content IS the bytes given, so what imports from it is PyCryptodome's verdict on the harness's own bytes
+            raise MachineryError('NdnPacketsCert!Unreadable disagrees with PyCryptodome on the %s encoding of a %s key' % (q.get('enc'), q['subj']))
         sig = 'C16/%s/trace/%s' % (FN_NAME[q['fn']], names.get(code, 'clause-' + code))
+        if code in ('7', '8', '9'):
+            sig += '/' + q.get('enc', 'spki')
         if code in ('4', '5') or (code == '3' and zone_class(q) == 'year-below-1000'):
             sig += '/' + zone_class(q)
         ctx.violation(sig, 'stage %s: recorded issuance rejected by NdnPacketsCertTrace (clause %s = %s): nb=%r na=%r q=%s' % (
@@ -1272,7 +1510,7 @@ def report_rejected(ctx, recs, rejected, stage):
 
 
 def nontrivial(q):
-    if any(w for w in q['lit'][:-2]):
+    if any(w for w in q['lit'][:-2]) or q.get('enc', 'spki') != 'spki' or q.get('pubbuf', 'bytes') != 'bytes':
         return True
     if q['sg']['a'] < q['sg']['r'] or (q['fn'] in ('derive', 'new_cert') and (q['tz'] not in (NAIVE, 0) or q['tz2'] != q['tz'])):
         return True
